@@ -26,3 +26,14 @@ package code93
 //@   loop 1 invariant forall k int :: 0 <= k && k < iterpos() ==> 0 <= e93Off(bytes(content), k) && e93Off(bytes(content), k) + e93W(content[k]) <= len(result)
 //@   loop 1 invariant forall k int :: 0 <= k && k < iterpos() && e93W(content[k]) == 1 ==> result[e93Off(bytes(content), k)] == content[k]
 //@   loop 1 invariant forall k int :: 0 <= k && k < iterpos() && e93W(content[k]) == 3 ==> result[e93Off(bytes(content), k)] == 195 && result[e93Off(bytes(content), k) + 1] == 177 + e93S(content[k]) && result[e93Off(bytes(content), k) + 2] == e93L(content[k])
+
+// ---- check characters (C07): the weighted sum stays in range for every text and weight limit up
+// to 20 ('*' has value 47), and for every total 0..46 some table character has that value, so the
+// search loop always finds one: the final "return ' '" is unreachable once every rune of the text
+// is in the table (the first return answers texts with other runes).
+//@ func getChecksum
+//@   attr unreachable_returns 3
+//@   requires len(content) <= 40000000 && 1 <= maxWeight && maxWeight <= 20
+//@   loop 1 invariant -1 <= i && i < len(data) && 0 <= total && total <= 47 * 20 * (len(data) - 1 - i) && 1 <= weight && weight <= maxWeight
+//@   loop 2 invariant 0 <= total && total <= 46
+//@   loop 2 invariant forall k int :: visited[k] ==> encodeTable[k].value != total
